@@ -34,7 +34,12 @@ NamespaceScope::NamespaceScope(AST &ast, NamespaceScope *parent) : m_ast(ast), m
 			"disconnect", "downto", "else", "elsif", "end", "entity", "exit", "file", "for", "function", "generate", "generic", "group", "guarded", "if", "impure", "in", "inertial", "inout",
 			"is", "label", "library", "linkage", "literal", "loop", "map", "mod", "nand", "new", "next", "nor", "not", "null", "of", "on", "open", "or", "others",
 			"out", "package", "port", "postponed", "procedure", "process", "pure", "range", "record", "register", "reject", "return", "rol", "ror", "select", "severity", "signal", "shared", "sla",
-			"sli", "sra", "srl", "subtype", "then", "to", "transport", "type", "unaffected", "units", "until", "use", "variable", "wait", "when", "while", "with", "xnor", "xor"})
+			"sli", "sra", "srl", "subtype", "then", "to", "transport", "type", "unaffected", "units", "until", "use", "variable", "wait", "when", "while", "with", "xnor", "xor",
+			// missing VHDL-93 words
+			"rem", "report", "sll",
+			// VHDL-2002/2008 additions
+			"assume", "assume_guarantee", "context", "cover", "default", "fairness", "force", "parameter", "property", "protected", "release", "restrict", "restrict_guarantee",
+			"sequence", "strong", "vmode", "vprop", "vunit"})
 		m_namesInUse.insert(keyword);
 }
 
